@@ -1076,7 +1076,14 @@ class WSGIApp:
                 f"Request body is of type {file_storage.mimetype!r}, "
                 f"while {submodel_element!r} has content_type {submodel_element.content_type!r}!")
 
-        submodel_element.value = self.file_store.add_file(filename, file_storage.stream, submodel_element.content_type)
+        new_name = self.file_store.add_file(filename, file_storage.stream, submodel_element.content_type)
+        try:
+            submodel_element.value = new_name
+        except ValueError as e:
+            # the name was taken by another file, and with the counter the file store appended it is no valid PathType
+            # any more: take the file out again (it has just been stored under a name nobody else uses)
+            self.file_store.delete_file(new_name)
+            raise BadRequest(f"Given 'fileName' is taken and too long to be made unique: {e}") from e
         submodel_element.commit()
         return response_t()
 
